@@ -134,6 +134,9 @@ func cmdCheck(args []string) int {
 	var engineProblems []string
 	missingFuncs := []string{}
 	var samples []map[string]string
+	if !*claimMode {
+		importantObl = func(o *Obl) bool { return claimed[baseName(o.Name)] || o.ExpectSat }
+	}
 	for si, sd := range seeds {
 		var results []*FuncResult
 		var vcs []*VC
